@@ -1840,3 +1840,17 @@ def _isin(I, a, k):
         raise Unsupported("np.isin with invert / assume_unique")
     from .pdmodel import membership
     return membership(a[0], a[1])
+
+
+@model(np.nan_to_num)
+def _nan_to_num(I, a, k):
+    """np.nan_to_num(x, nan=v): NaN entries become v (default 0.0); integers are returned as they are (infinities are not modelled)"""
+    if not _anysym(a, k):
+        return NotImplemented
+    from .core import NAN
+    x = A.as_sarr(a[0])
+    if x.dtype.kind != "f":
+        return x.copy()
+    rep = to_real(term(k.get("nan", 0.0)))
+    xs = x.snapshot()
+    return SArr(x.dtype, x.shape, lambda idx: (lambda v: z3.If(v == NAN, rep, v))(xs(idx)))
